@@ -11,6 +11,7 @@ structure CrateFacts where
   edges : List (Nat × Nat)
   refs : List Ref
   stmtLevelGates : Nat
+  innerGates : Nat
 def paseto_v1_refs : List Ref := [⟨(.all [(.feat 6)]), (.any [(.feat 3)])⟩,
     ⟨(.all [(.feat 6)]), (.any [(.feat 6)])⟩,
     ⟨(.all [(.feat 6)]), (.any [(.feat 0), (.feat 2), (.feat 6), (.feat 7), (.feat 8)])⟩,
@@ -30,7 +31,7 @@ def paseto_v1_refs : List Ref := [⟨(.all [(.feat 6)]), (.any [(.feat 3)])⟩,
     ⟨(.all [(.feat 7)]), (.any [(.all [(.feat 3)])])⟩,
     ⟨(.all [(.feat 7)]), (.any [(.feat 3)])⟩,
     ⟨(.all [(.feat 7)]), (.any [(.feat 0), (.feat 2), (.feat 6), (.feat 7), (.feat 8)])⟩]
-def paseto_v1 : CrateFacts := { nFeatures := 9, edges := [(0, 1), (2, 3), (4, 6), (4, 7), (4, 8), (4, 5), (6, 2), (7, 2), (8, 2), (8, 0)], stmtLevelGates := 0, refs := paseto_v1_refs }
+def paseto_v1 : CrateFacts := { nFeatures := 9, edges := [(0, 1), (2, 3), (4, 6), (4, 7), (4, 8), (4, 5), (6, 2), (7, 2), (8, 2), (8, 0)], stmtLevelGates := 0, innerGates := 0, refs := paseto_v1_refs }
 /-- feature names of paseto-v1, by index: 0=signing, 1=verifying, 2=encrypting, 3=decrypting, 4=paserk, 5=id, 6=pbkw, 7=pie-wrap, 8=pke -/
 def paseto_v1_names : List String := ["signing", "verifying", "encrypting", "decrypting", "paserk", "id", "pbkw", "pie-wrap", "pke"]
 def paseto_v2_refs : List Ref := [⟨(.all [(.feat 6)]), (.any [(.feat 3), (.feat 5)])⟩,
@@ -63,7 +64,7 @@ def paseto_v2_refs : List Ref := [⟨(.all [(.feat 6)]), (.any [(.feat 3), (.fea
     ⟨(.all [(.feat 7)]), (.any [(.feat 3)])⟩,
     ⟨(.all [(.feat 7)]), (.any [(.all [(.feat 3)]), (.all [(.feat 3)])])⟩,
     ⟨(.all [(.feat 7)]), (.any [(.feat 0), (.feat 2), (.feat 6), (.feat 7), (.feat 8)])⟩]
-def paseto_v2 : CrateFacts := { nFeatures := 9, edges := [(0, 1), (2, 3), (4, 6), (4, 7), (4, 8), (4, 5), (6, 2), (7, 2), (8, 2), (8, 0)], stmtLevelGates := 0, refs := paseto_v2_refs }
+def paseto_v2 : CrateFacts := { nFeatures := 9, edges := [(0, 1), (2, 3), (4, 6), (4, 7), (4, 8), (4, 5), (6, 2), (7, 2), (8, 2), (8, 0)], stmtLevelGates := 0, innerGates := 0, refs := paseto_v2_refs }
 /-- feature names of paseto-v2, by index: 0=signing, 1=verifying, 2=encrypting, 3=decrypting, 4=paserk, 5=id, 6=pbkw, 7=pie-wrap, 8=pke -/
 def paseto_v2_names : List String := ["signing", "verifying", "encrypting", "decrypting", "paserk", "id", "pbkw", "pie-wrap", "pke"]
 def paseto_v3_refs : List Ref := [⟨(.all [(.feat 6)]), (.any [(.feat 3)])⟩,
@@ -86,7 +87,7 @@ def paseto_v3_refs : List Ref := [⟨(.all [(.feat 6)]), (.any [(.feat 3)])⟩,
     ⟨(.all [(.feat 7)]), (.any [(.all [(.feat 3)])])⟩,
     ⟨(.all [(.feat 7)]), (.any [(.feat 3)])⟩,
     ⟨(.all [(.feat 7)]), (.any [(.feat 0), (.feat 2), (.feat 6), (.feat 7), (.feat 8)])⟩]
-def paseto_v3 : CrateFacts := { nFeatures := 9, edges := [(0, 1), (2, 3), (4, 6), (4, 7), (4, 8), (4, 5), (6, 2), (7, 2), (8, 2), (8, 0)], stmtLevelGates := 0, refs := paseto_v3_refs }
+def paseto_v3 : CrateFacts := { nFeatures := 9, edges := [(0, 1), (2, 3), (4, 6), (4, 7), (4, 8), (4, 5), (6, 2), (7, 2), (8, 2), (8, 0)], stmtLevelGates := 0, innerGates := 0, refs := paseto_v3_refs }
 /-- feature names of paseto-v3, by index: 0=signing, 1=verifying, 2=encrypting, 3=decrypting, 4=paserk, 5=id, 6=pbkw, 7=pie-wrap, 8=pke -/
 def paseto_v3_names : List String := ["signing", "verifying", "encrypting", "decrypting", "paserk", "id", "pbkw", "pie-wrap", "pke"]
 def paseto_v4_refs : List Ref := [⟨(.all [(.feat 6)]), (.any [(.feat 3), (.feat 5)])⟩,
@@ -121,7 +122,7 @@ def paseto_v4_refs : List Ref := [⟨(.all [(.feat 6)]), (.any [(.feat 3), (.fea
     ⟨(.all [(.feat 7)]), (.any [(.all [(.feat 3)]), (.all [(.feat 3)])])⟩,
     ⟨(.all [(.feat 7)]), (.any [(.all [(.feat 6)]), (.all [(.feat 3)])])⟩,
     ⟨(.all [(.feat 7)]), (.any [(.feat 0), (.feat 2), (.feat 6), (.feat 7), (.feat 8)])⟩]
-def paseto_v4 : CrateFacts := { nFeatures := 9, edges := [(0, 1), (2, 3), (4, 6), (4, 7), (4, 8), (4, 5), (6, 2), (7, 2), (8, 2), (8, 0)], stmtLevelGates := 0, refs := paseto_v4_refs }
+def paseto_v4 : CrateFacts := { nFeatures := 9, edges := [(0, 1), (2, 3), (4, 6), (4, 7), (4, 8), (4, 5), (6, 2), (7, 2), (8, 2), (8, 0)], stmtLevelGates := 0, innerGates := 0, refs := paseto_v4_refs }
 /-- feature names of paseto-v4, by index: 0=signing, 1=verifying, 2=encrypting, 3=decrypting, 4=paserk, 5=id, 6=pbkw, 7=pie-wrap, 8=pke -/
 def paseto_v4_names : List String := ["signing", "verifying", "encrypting", "decrypting", "paserk", "id", "pbkw", "pie-wrap", "pke"]
 end PM.Extracted.Feat
